@@ -130,7 +130,7 @@ type c20Scenario struct {
 
 type c20Finding struct {
 	Op   int    `json:"op"`
-	Kind string `json:"kind"` // panic | rt-error | rt-mismatch | cross-mismatch | earlier-output-modified | lz4-cap
+	Kind string `json:"kind"` // panic | rt-error | rt-mismatch | cross-mismatch | earlier-output-modified | result-aliases-src | lz4-cap
 	Msg  string `json:"msg"`
 }
 
@@ -280,6 +280,51 @@ type c20Kept struct {
 	live []byte // as returned by the codec
 	copy []byte
 	what string
+	enc  bool // an Encode output (else: a Decode output)
+}
+
+// c20Scribble overwrites a buffer the CALLER owns (the src of a call that has returned) and puts
+// it back: "writes the (un)compressed version of src to dst and returns it" — the result lives
+// in dst or in a new buffer, never in src, so it must not change when src does.
+func c20Scribble(b []byte) {
+	for i := range b {
+		b[i] ^= 0xFF
+	}
+}
+
+// srcIndependent: does `result` (equal to `want` right now) survive the caller overwriting `src`?
+func (e *c20Exec) srcIndependent(op int, call string, result, want, src []byte) {
+	if len(src) == 0 || len(result) == 0 {
+		return
+	}
+	c20Scribble(src)
+	same := bytes.Equal(result, want)
+	c20Scribble(src)
+	if !same {
+		e.find(op, "result-aliases-src", call+" returned a slice that shares memory with its src: the result changes when the caller overwrites src ("+c20FirstDiff(result, want)+" while src was overwritten)")
+	}
+}
+
+// c20Recycle implements the dst kinds `lastenc` / `lastdec`: the caller gives up ONE buffer it
+// got from the codec — the most recent Encode (Decode) output it still holds — as the next dst
+// and keeps everything else, in particular the other half of the same round trip.
+func c20Recycle(kind string, n int, kept *[]c20Kept) ([]byte, bool) {
+	if kind != "lastenc" && kind != "lastdec" {
+		return nil, false
+	}
+	k := *kept
+	for j := len(k) - 1; j >= 0; j-- {
+		if k[j].enc == (kind == "lastenc") {
+			b := k[j].live
+			*kept = append(k[:j:j], k[j+1:]...)
+			return b[:0], true
+		}
+	}
+	b := make([]byte, n/2)
+	for i := range b {
+		b[i] = 0xFF
+	}
+	return b[:0], true
 }
 
 type c20Exec struct {
@@ -392,7 +437,10 @@ func (e *c20Exec) runOps(which []int) {
 		r := &e.res[i]
 		if op.K == "ext" {
 			src, _ := hex.DecodeString(op.Src)
-			ddst := c20Dst(op.DDst, len(x), len(src), &prev)
+			ddst, ok := c20Recycle(op.DDst, len(x), &kept)
+			if !ok {
+				ddst = c20Dst(op.DDst, len(x), len(src), &prev)
+			}
 			got, err, pan := c20Safe(func() ([]byte, error) { return e.codec.Decode(ddst, src) })
 			switch {
 			case pan != "":
@@ -406,7 +454,9 @@ func (e *c20Exec) runOps(which []int) {
 				e.find(i, "refenc-mismatch", "Decode of a stream from the Lean reference encoder: "+c20FirstDiff(got, x))
 			default:
 				r.Status = "ok"
+				e.srcIndependent(i, "Decode", got, x, src)
 			}
+			e.checkKept(i, kept)
 			continue
 		}
 		// ---- Encode
@@ -420,6 +470,8 @@ func (e *c20Exec) runOps(which []int) {
 				size = len(probe)
 			}
 			edst = c20Dst(map[string]string{"outm1": "exactm1", "outcap": "exactcap", "outp1": "exactp1"}[op.EDst], size, len(x), &prev)
+		} else if b, ok := c20Recycle(op.EDst, encHint, &kept); ok {
+			edst = b
 		} else {
 			edst = c20Dst(op.EDst, encHint, len(x), &prev)
 		}
@@ -437,9 +489,13 @@ func (e *c20Exec) runOps(which []int) {
 		r.EncLen = len(enc)
 		r.EncDstCap, r.EncOutCap = cap(edst)+1, cap(enc)+1
 		encCopy := append([]byte{}, enc...)
+		e.srcIndependent(i, "Encode", enc, encCopy, x)
 		if op.K == "bad" {
 			bad := op.Bad.apply(enc)
-			ddst := c20Dst(op.DDst, len(x), len(bad), &prev)
+			ddst, ok := c20Recycle(op.DDst, len(x), &kept)
+			if !ok {
+				ddst = c20Dst(op.DDst, len(x), len(bad), &prev)
+			}
 			got, err, pan := c20Safe(func() ([]byte, error) { return e.codec.Decode(ddst, bad) })
 			switch {
 			case pan != "":
@@ -452,12 +508,18 @@ func (e *c20Exec) runOps(which []int) {
 			default:
 				r.Status = "ok-diff"
 			}
+			if pan == "" && err == nil {
+				e.srcIndependent(i, "Decode", got, append([]byte{}, got...), bad)
+			}
 			e.checkKept(i, kept)
-			kept = append(kept, c20Kept{enc, encCopy, fmt.Sprintf("Encode output of op %d", i)})
+			kept = append(kept, c20Kept{enc, encCopy, fmt.Sprintf("Encode output of op %d", i), true})
 			continue
 		}
 		// ---- Decode(Encode(x))
-		ddst := c20Dst(op.DDst, len(x), len(enc), &prev)
+		ddst, ok := c20Recycle(op.DDst, len(x), &kept)
+		if !ok {
+			ddst = c20Dst(op.DDst, len(x), len(enc), &prev)
+		}
 		r.DstCap = cap(ddst)
 		dec, err, pan := c20Safe(func() ([]byte, error) { return e.codec.Decode(ddst, enc) })
 		switch {
@@ -479,6 +541,8 @@ func (e *c20Exec) runOps(which []int) {
 		}
 		if !bytes.Equal(enc, encCopy) {
 			e.find(i, "earlier-output-modified", "Decode changed its src")
+		} else if r.Status == "ok" {
+			e.srcIndependent(i, "Decode", dec, x, enc)
 		}
 		e.crossDecode(i, enc, x)
 		if len(x) <= 1<<16 && i%3 == 0 {
@@ -486,8 +550,8 @@ func (e *c20Exec) runOps(which []int) {
 		}
 		e.checkKept(i, kept)
 		if r.Status == "ok" {
-			kept = append(kept, c20Kept{enc, encCopy, fmt.Sprintf("Encode output of op %d", i)},
-				c20Kept{dec, append([]byte{}, dec...), fmt.Sprintf("Decode output of op %d", i)})
+			kept = append(kept, c20Kept{enc, encCopy, fmt.Sprintf("Encode output of op %d", i), true},
+				c20Kept{dec, append([]byte{}, dec...), fmt.Sprintf("Decode output of op %d", i), false})
 		}
 		// give up the oldest kept outputs so that later ops can alias them as dst
 		if len(kept) > 4 {
